@@ -77,6 +77,9 @@ func c04Gen(r *Rand, tier string) interface{} {
 		for k := r.Intn(7); k > 0; k-- {
 			in.Chunks = append(in.Chunks, r.Pick(0, 1, 3, 16, 500))
 		}
+		if len(in.Data) > 66000 && r.Chance(1, 2) {
+			in.Chunks = append([]int{r.Pick(65536, 66000)}, in.Chunks...) // a first chunk past 64 KiB
+		}
 		for k := r.Intn(3); k > 0; k-- {
 			in.ReadBufs = append(in.ReadBufs, r.Pick(0, 1, 2, 7, 64, 5000))
 		}
